@@ -126,5 +126,137 @@ def oracle_expr(spec):
 
 
 
-DECODERS = {"pauli_struct": decode_pauli_struct, "pauli_text": decode_pauli_text, "expr": decode_expr}
-ORACLES = {"pauli_struct": oracle_pauli_struct, "pauli_text": oracle_pauli_text, "expr": oracle_expr}
+# ---------------------------------------------------------------- C03: arithmetic trees over Pauli operands
+
+ACOEFS = [1, -1, 2, 0.5, -0.25, 3, 1.5, ["c", 0.0, 1.0], ["c", 1.0, -1.0], ["c", 0.5, 2.0], 0, 1e3, 1e-3]
+
+
+def decode_pauli_arith(data, make_fdp):
+    fdp = make_fdp(data)
+
+    def coef():
+        return ACOEFS[fdp.ConsumeIntInRange(0, len(ACOEFS) - 1)]
+
+    def term():
+        ops, used = [], set()
+        for _ in range(fdp.ConsumeIntInRange(0, 3)):
+            q = fdp.ConsumeIntInRange(0, 4)
+            if q in used:
+                continue
+            used.add(q)
+            ops.append([q, "XYZ"[fdp.ConsumeIntInRange(0, 2)]])
+        return {"ops": sorted(ops), "c": coef()}
+
+    def leaf():
+        k = fdp.ConsumeIntInRange(0, 5)
+        if k <= 2:
+            return {"t": term()}
+        if k <= 4:
+            return {"s": {"terms": [term() for _ in range(fdp.ConsumeIntInRange(0, 3))]}}
+        c = coef()
+        return {"n": c if c != 0 else 2}
+
+    def tree(d):
+        if d == 0 or fdp.remaining_bytes() == 0 or fdp.ConsumeIntInRange(0, 3) == 0:
+            return leaf()
+        k = fdp.ConsumeIntInRange(0, 5)
+        a = tree(d - 1)
+        if k <= 2:
+            return {"op": "+-*"[k], "a": a, "b": tree(d - 1)}
+        if k == 3:
+            c = coef()
+            return {"op": "/", "a": a, "s": c if c != 0 else 2}
+        return {"op": "**", "a": a, "k": fdp.ConsumeIntInRange(0, 3)}
+
+    return {"tree": tree(fdp.ConsumeIntInRange(1, 3))}
+
+
+def oracle_pauli_arith(spec):
+    from props.C03 import o_tree
+
+    try:
+        out = o_tree(spec) or {}
+    except ZeroDivisionError:
+        return False
+    return bool(out.get("nontrivial"))
+
+
+# ---------------------------------------------------------------- C13: shot conservation
+
+def decode_shots(data, make_fdp):
+    fdp = make_fdp(data)
+    mx = [1, 2, 3, 7, 10, 100, 1000, 8192][fdp.ConsumeIntInRange(0, 7)] if fdp.ConsumeBool() else fdp.ConsumeIntInRange(1, 10000)
+    ns = []
+    for _ in range(fdp.ConsumeIntInRange(0, 8)):
+        k = fdp.ConsumeIntInRange(0, 3)
+        m = fdp.ConsumeIntInRange(0, 5)
+        if k == 0:
+            n = [1, mx, mx + 1, mx - 1, m * mx, m * mx + 1, m * mx - 1][fdp.ConsumeIntInRange(0, 6)]
+        elif k == 1:
+            n = fdp.ConsumeIntInRange(1, 5 * mx)
+        else:
+            n = fdp.ConsumeIntInRange(1, min(10 ** 6, 300 * mx))
+        ns.append(max(1, n))
+    expand = {"mx": mx, "ns": ns, "bsz": fdp.ConsumeIntInRange(1, 5), "wrong": fdp.ConsumeIntInRange(-2, 2), "bits": fdp.ConsumeIntInRange(1, 3),
+              "container": ["dict", "counter", "ordered", "shared"][fdp.ConsumeIntInRange(0, 3)], "twice": fdp.ConsumeBool()}
+    vals = []
+    for _ in range(fdp.ConsumeIntInRange(1, 8)):
+        k = fdp.ConsumeIntInRange(0, 3)
+        vals.append([1 / 3, 0.1, 0.5, 2.5, 1e-6][fdp.ConsumeIntInRange(0, 4)] if k == 0 else
+                    (fdp.ConsumeIntInRange(1, 9) if k == 1 else (fdp.ConsumeFloatInRange(1e-6, 1) if k == 2 else fdp.ConsumeFloatInRange(1, 1e6))))
+    disc = {"vals": vals, "total": fdp.ConsumeIntInRange(0, 10 ** 4) if fdp.ConsumeBool() else fdp.ConsumeIntInRange(0, 60)}
+    return {"expand": expand, "disc": disc}
+
+
+def oracle_shots(spec):
+    from props.C13 import o_disc, o_expand
+
+    a = o_expand(spec["expand"]) or {}
+    b = o_disc(spec["disc"]) or {}
+    return bool(a.get("nontrivial")) or bool(b.get("nontrivial"))
+
+
+# ---------------------------------------------------------------- C17: normalisation and marginals
+
+def decode_marginal(data, make_fdp):
+    fdp = make_fdp(data)
+    n = fdp.ConsumeIntInRange(1, 4)
+    values = [0, 1] if fdp.ConsumeIntInRange(0, 3) else [0, 1, 2, 3, 10, 12]
+    keys, seen = [], set()
+    for _ in range(fdp.ConsumeIntInRange(1, 10)):
+        k = tuple(values[fdp.ConsumeIntInRange(0, len(values) - 1)] for _ in range(n))
+        if k not in seen:
+            seen.add(k)
+            keys.append(list(k))
+    ws = []
+    for _ in keys:
+        k = fdp.ConsumeIntInRange(0, 3)
+        ws.append([0.0, 1.0, 0.25, 1e-9][fdp.ConsumeIntInRange(0, 3)] if k == 0 else
+                  (fdp.ConsumeIntInRange(0, 50) if k == 1 else (fdp.ConsumeFloatInRange(1e-9, 1) if k == 2 else fdp.ConsumeFloatInRange(1e-9, 1e6))))
+    if sum(ws) <= 0:
+        ws[0] = 1.0
+    bits = all(v in (0, 1) for k in keys for v in k)
+    form = ["tuple", "str" if bits else "comma", "comma"][fdp.ConsumeIntInRange(0, 2)]
+
+    def qubit_list():
+        pool = list(range(n))
+        out = []
+        for _ in range(fdp.ConsumeIntInRange(1, n)):
+            out.append(pool.pop(fdp.ConsumeIntInRange(0, len(pool) - 1)))
+        return out
+
+    return {"d": {"n": n, "keys": keys, "w": ws, "form": form}, "qs": qubit_list(), "more": [qubit_list() for _ in range(fdp.ConsumeIntInRange(0, 2))],
+            "bad": None, "normalize": fdp.ConsumeIntInRange(0, 2) > 0}
+
+
+def oracle_marginal(spec):
+    from props.C17 import o_marginal
+
+    out = o_marginal(spec) or {}
+    return bool(out.get("nontrivial"))
+
+
+DECODERS = {"pauli_struct": decode_pauli_struct, "pauli_text": decode_pauli_text, "expr": decode_expr,
+            "pauli_arith": decode_pauli_arith, "shots": decode_shots, "marginal": decode_marginal}
+ORACLES = {"pauli_struct": oracle_pauli_struct, "pauli_text": oracle_pauli_text, "expr": oracle_expr,
+           "pauli_arith": oracle_pauli_arith, "shots": oracle_shots, "marginal": oracle_marginal}
